@@ -84,3 +84,56 @@ Example C15_nonvacuous_refuse :
   let ops := [OSet 1 10 true; OSet 2 20 true] in
   snd (lru_step (reach 2 ops) (OSet 4 40 false)) = RSet false None.
 Proof. vm_compute. reflexivity. Qed.
+
+(* ---- the oracle of the correspondence run and the model (Proofs/LruOracle.v) ----
+   `spec_accepts` (Spec/LruSpec.v) judges what the Go driver reports, step by step, without running
+   the model; `model_agrees` compares the report with the model's trace. For EVERY capacity and
+   EVERY operation list the oracle accepts the model's own trace, so on a case where the model and
+   Go agree the oracle accepts what Go did: an oracle rejection is never a false alarm on code that
+   conforms to the model. No hypothesis on the case is needed. *)
+From Mkdb Require Import Spec.LruSpec Proofs.LruOracle.
+
+Theorem C15_oracle_accepts_model : forall c ops,
+  spec_accepts (c, ops, lru_trace (lru_init c) ops) = true.
+Proof. exact oracle_accepts_model. Qed.
+Print Assumptions C15_oracle_accepts_model.
+
+Theorem C15_agreement_implies_acceptance : forall cs : lru_case,
+  model_agrees cs = true -> spec_accepts cs = true.
+Proof. exact agreement_implies_acceptance. Qed.
+Print Assumptions C15_agreement_implies_acceptance.
+
+(* conversely the oracle accepts NOTHING BUT the model's trace (it fixes the return value and the
+   resident list of every step), so it is neither stricter nor laxer than the model: on every case
+   the two verdicts of the correspondence run coincide *)
+Theorem C15_oracle_is_model : forall cs : lru_case, spec_accepts cs = model_agrees cs.
+Proof. exact oracle_is_model. Qed.
+Print Assumptions C15_oracle_is_model.
+
+(* non-vacuity: a case with a hit, a dirty mark, an eviction that skips the dirty LRU entry, a
+   refusal on a cache full of dirty entries and a miss; the observation is the model's trace.
+   And the oracle is not trivially true: the same case reporting the eviction of the dirty LRU
+   entry 1 instead of the clean entry 2 is rejected. *)
+Definition c15_demo_ops : list lru_op :=
+  [OSet 1 10 false; OSet 2 20 false; OGet 1; ODirty 1; OGet 2; OGet 1; OSet 3 30 true;
+   OSet 4 40 true; OSet 5 50 false; OGet 2; OClean 3; OSet 5 50 false].
+
+Example C15_oracle_demo :
+  map fst (lru_trace (lru_init 3) c15_demo_ops) =
+    [RSet true None; RSet true None; RGet (Some 10); RNone; RGet (Some 20); RGet (Some 10);
+     RSet true None; RSet true (Some 2); RSet false None; RGet None; RNone; RSet true (Some 3)] /\
+  model_agrees (3%nat, c15_demo_ops, lru_trace (lru_init 3) c15_demo_ops) = true /\
+  spec_accepts (3%nat, c15_demo_ops, lru_trace (lru_init 3) c15_demo_ops) = true.
+Proof. vm_compute. repeat split; reflexivity. Qed.
+
+Example C15_oracle_rejects_wrong_victim :
+  let ops := [OSet 1 10 true; OSet 2 20 false; OSet 3 30 false] in
+  spec_accepts (2%nat, ops,
+    [(RSet true None, [(1, 10, true)]);
+     (RSet true None, [(2, 20, false); (1, 10, true)]);
+     (RSet true (Some 1), [(3, 30, false); (2, 20, false)])]) = false /\
+  spec_accepts (2%nat, ops,
+    [(RSet true None, [(1, 10, true)]);
+     (RSet true None, [(2, 20, false); (1, 10, true)]);
+     (RSet true (Some 2), [(3, 30, false); (1, 10, true)])]) = true.
+Proof. vm_compute. split; reflexivity. Qed.
